@@ -157,7 +157,7 @@ func H_C09_exec(v *V) {
 		}
 	}
 	rest, err := p.ParseArgs(argv)
-	v.ObserveStr("err", vErrString(err))
+	vObsErr(v, err)
 	v.ObserveInt("runs", len(log.ids))
 	if faulty {
 		v.Reach("faulty")
